@@ -718,6 +718,15 @@ func (w *ammWorld) opRmu(u sdk.AccAddress, sym string, units *big.Int) {
 }
 
 func (w *ammWorld) opRm(u sdk.AccAddress, sym string, wb int64) {
+	// one removal in twelve asks for an asymmetric payout (asymmetry != 0), which the handler refuses
+	if w.rng.Chance(1, 12) {
+		asym := []int64{1, -1, 5000, -5000, 10000, -10000}[w.rng.Intn(6)]
+		w.tx(fmt.Sprintf("rma %s %s %d %d", u, sym, wb, asym), "rma", func(ctx sdk.Context) (string, error) {
+			_, err := w.srv.RemoveLiquidity(sdk.WrapSDKContext(ctx), &clptypes.MsgRemoveLiquidity{Signer: u.String(), ExternalAsset: asset(sym), WBasisPoints: sdk.NewInt(wb), Asymmetry: sdk.NewInt(asym)})
+			return "", err
+		})
+		return
+	}
 	pr := w.probeRemoval(u, sym)
 	w.tx(fmt.Sprintf("rm %s %s %d", u, sym, wb), "rm", func(ctx sdk.Context) (string, error) {
 		_, err := w.srv.RemoveLiquidity(sdk.WrapSDKContext(ctx), &clptypes.MsgRemoveLiquidity{Signer: u.String(), ExternalAsset: asset(sym), WBasisPoints: sdk.NewInt(wb), Asymmetry: sdk.ZeroInt()})
